@@ -7,11 +7,14 @@ package fingerproxy
 
 import (
 	"context"
+	"crypto/tls"
 	"flag"
 	"fmt"
 	"io"
 	"net"
 	"net/http"
+	"os"
+	"path/filepath"
 	"strings"
 	"testing"
 	"time"
@@ -329,6 +332,107 @@ func TestVerifWiringC08(t *testing.T) {
 				return vstat.Violf("wiring:content-encoding|response-altered", "%+v: backend sent %d bytes with Content-Encoding %q, client received %d bytes with Content-Encoding %q", s, len(wantBody), wantCE, len(ex.Body), ex.Header.Get("Content-Encoding"))
 			}
 			colC08.Case(fmt.Sprintf("%+v", s), s.ClientAE == "" || s.BackendEnc != "", s, "client-ae:"+s.ClientAE, "backend-enc:"+s.BackendEnc)
+			return nil
+		}})
+}
+
+// ---- C14: the binary's TLS configuration serves what the certificate watcher has loaded --------------
+
+type certScript struct {
+	SNI    string `json:"sni"`   // "" = client sends no server_name
+	Style  string `json:"style"` // inplace, rename
+	MaxTLS uint16 `json:"max_tls"`
+	ALPN   string `json:"alpn"`
+}
+
+var colC14 = vstat.New("C14", "c14.wiring")
+
+func TestVerifWiringC14(t *testing.T) {
+	pairs := rig.CertPairsPEM(3)
+	vstat.Run(t, vstat.Spec[certScript]{Col: colC14, Quick: 40, Thorough: 400,
+		Gen: func(t *rapid.T) certScript {
+			return certScript{SNI: rapid.SampledFrom([]string{"", "", "verif.test", "other.example"}).Draw(t, "sni"), Style: rapid.SampledFrom([]string{"inplace", "rename"}).Draw(t, "style"),
+				MaxTLS: rapid.SampledFrom([]uint16{0x0303, 0x0304}).Draw(t, "tls"), ALPN: rapid.SampledFrom([]string{"h2", "http/1.1", ""}).Draw(t, "alpn")}
+		},
+		Exec: func(s certScript) *vstat.Violation {
+			dir, err := os.MkdirTemp("", "verif-c14w-")
+			if err != nil {
+				colC14.Discard()
+				return nil
+			}
+			defer os.RemoveAll(dir)
+			cp, kp := filepath.Join(dir, "tls.crt"), filepath.Join(dir, "tls.key")
+			os.WriteFile(cp, pairs[0][0], 0o644)
+			os.WriteFile(kp, pairs[0][1], 0o600)
+			for _, l := range []interface{ SetOutput(io.Writer) }{ProxyServerLog, HTTPServerLog, PrometheusLog, ReverseProxyLog, FingerprintLog, CertWatcherLog, DefaultLog} {
+				l.SetOutput(io.Discard)
+			}
+			flag.CommandLine = flag.NewFlagSet("fingerproxy", flag.ContinueOnError)
+			flag.CommandLine.SetOutput(io.Discard)
+			initFlags()
+			flag.CommandLine.Parse([]string{"-cert-filename", cp, "-certkey-filename", kp})
+			cw := initCertWatcher()
+			cfg := defaultTLSConfig(cw)
+			ctx, cancel := context.WithCancel(context.Background())
+			done := make(chan struct{})
+			go func() { cw.Start(ctx); close(done) }()
+			defer func() { cancel(); <-done }()
+			time.Sleep(25 * time.Millisecond)
+			serial := func() (int64, error) {
+				a, b := net.Pipe()
+				defer a.Close()
+				defer b.Close()
+				a.SetDeadline(time.Now().Add(2 * time.Second))
+				b.SetDeadline(time.Now().Add(2 * time.Second))
+				srv := tls.Server(a, cfg)
+				ccfg := &tls.Config{InsecureSkipVerify: true, ServerName: s.SNI, MaxVersion: s.MaxTLS}
+				if s.ALPN != "" {
+					ccfg.NextProtos = []string{s.ALPN}
+				}
+				cli := tls.Client(b, ccfg)
+				ec := make(chan error, 1)
+				go func() { ec <- srv.Handshake() }()
+				if err := cli.Handshake(); err != nil {
+					<-ec
+					return 0, err
+				}
+				<-ec
+				return cli.ConnectionState().PeerCertificates[0].SerialNumber.Int64(), nil
+			}
+			if ser, err := serial(); err != nil || ser != 1 {
+				return vstat.Violf("wiring:tls-config|initial-pair-not-served", "%+v: first handshake serial %d err %v", s, ser, err)
+			}
+			write := func(p string, b []byte) {
+				if s.Style == "rename" {
+					os.WriteFile(p+".tmp", b, 0o644)
+					os.Rename(p+".tmp", p)
+				} else {
+					os.WriteFile(p, b, 0o644)
+				}
+			}
+			write(cp, pairs[1][0])
+			write(kp, pairs[1][1])
+			t0 := time.Now()
+			var ser int64
+			for time.Since(t0) < 3*time.Second {
+				ser, err = serial()
+				if err == nil && ser == 2 {
+					break
+				}
+				time.Sleep(3 * time.Millisecond)
+			}
+			if ser != 2 {
+				time.Sleep(2 * time.Second)
+				ser, err = serial()
+			}
+			if ser != 2 {
+				sni := "with-sni"
+				if s.SNI == "" {
+					sni = "no-sni"
+				}
+				return vstat.Violf("wiring:tls-config|new-pair-not-presented:"+sni, "%+v: 5 s after both files were updated (%s) a handshake still presents serial %d (err %v)", s, s.Style, ser, err)
+			}
+			colC14.Case(fmt.Sprintf("%+v", s), s.SNI == "", s, "sni:"+s.SNI, "style:"+s.Style)
 			return nil
 		}})
 }
